@@ -146,7 +146,7 @@ Theorem C08_prior_at_is_table_index : forall raw n m q,
   exists i, nth_error (table n) i = Some m /\ nth_error raw i = Some q.
 Proof. exact ComposeMcts.prior_at_spec. Qed.
 
-(* ---- the same about MCTS.update and the pure part of MCTS.populate REGENERATED FROM THE SOURCE (gen/MctsGen.v, harness/mcts2coq.py against model/MctsSem.v + PySem.v; proofs/MctsGenEq.v); descend (sampling) and analyze_tree (the loop) stay trace-tied ---- *)
+(* ---- the same about MCTS.update and the pure part of MCTS.populate REGENERATED FROM THE SOURCE (gen/MctsGen.v, harness/mcts2coq.py against model/MctsSem.v + PySem.v; proofs/MctsGenEq.v); the search loop follows at the end of this file ---- *)
 From Coq Require Import ZArith QArith List Bool.
 From Coq Require Import Floats.SpecFloat.
 From TV Require Import model.Tak model.Road model.PySem model.Mcts model.MctsSem model.Solver model.LambdaF64.
@@ -205,3 +205,69 @@ Theorem C08_source_populate_children_legal :
                forall c, In c ks -> exists mv, pn_move c = Some mv /\ In mv (table (size p)) /\
                                                Tak.move p mv = Some (pn_position c).
 Proof. exact gen_populate_children_legal. Qed.
+
+(* ====================================================================== *)
+(* The search loop (proofs/MctsGenSearch.v): descend, analyze_tree, analyze, get_move, select_root_move, tree_probs
+   regenerated over the tree-as-heap of model/MctsSem.v.  The Python code mutates Node objects in place through
+   references; the translation threads one immutable tree and addresses a node by its PLACE (child indices from the
+   searched node) - valid because the objects form a tree; that proviso (no aliasing) is not proved here, it is what
+   C08's snapshots and C05 check.  Oracles of the theorems: o_multinomial = the choice stream (refuses a missing
+   distribution), o_evaluate = the evaluator stream (next_eval), o_dirichlet = the noise vector of this call,
+   o_monotonic = a clock (time_limit = 0: the deadline is float("inf"), kept symbolic, never reached).
+   solve total = the solver returns (C10). *)
+From TV Require Import proofs.MctsGenSearch.
+
+(* END TO END: for time_limit = 0 and simulation_limit = limit > 0 the regenerated analyze_tree, with fuel that does
+   not run out, computes exactly model/Mcts.v's analyze on the same streams (one evaluator answer per non-terminal
+   leaf, one choice per descent step, the Dirichlet sample at the root's first expansion) *)
+Theorem C08_source_analyze_tree_eq :
+  forall F f_sqrt f_mul f_div_int (solve : list Q -> list Q -> F -> res (list Q)) (C : F) cutoff mix alpha limit,
+  (forall pi q lam, exists r, solve pi q lam = Ok r) -> (0 < cutoff)%Q ->
+  forall noise, is_some alpha = is_some noise ->
+  forall css t evs rest fuel,
+  Good cutoff t -> valid_analyze cutoff mix limit css t noise evs -> (0 < limit)%nat -> noise_ok noise t evs ->
+  (length css < fuel)%nat -> Forall (fun cs => (length cs < fuel)%nat) css ->
+  MctsGen.analyze_tree ostate o_multinomial o_monotonic o_evaluate o_dirichlet F f_sqrt f_mul f_div_int solve C fuel
+    (search_cfg cutoff mix alpha limit) (py_of t) [] (mkOst (flat css ++ rest) evs noise) =
+  Ok (py_of (fst (analyze cutoff mix limit css t noise evs)),
+      mkOst (flat (unused cutoff mix limit noise css t evs) ++ rest) (snd (analyze cutoff mix limit css t noise evs)) noise).
+Proof. exact gen_analyze_tree_eq. Qed.
+(* descend: follows the choice stream from the node at `pl` down to a leaf; the references it returns are the places
+   of the path; one sampler answer per step *)
+Theorem C08_source_descend_eq :
+  forall F f_sqrt f_mul f_div_int (solve : list Q -> list Q -> F -> res (list Q)) (C : F) cutoff mix alpha limit,
+  (forall pi q lam, exists r, solve pi q lam = Ok r) ->
+  forall cs t hp pl path0 rest evs nz fuel0 fuel,
+  valid cs t -> Good cutoff t -> pt_get hp pl = Ok (py_of t) -> (length cs < fuel)%nat ->
+  MctsGen.descend_while1 ostate o_multinomial F f_sqrt f_mul f_div_int solve C fuel0 fuel
+    (search_cfg cutoff mix alpha limit) hp pl path0 (mkOst (zs cs ++ rest) evs nz) =
+  Ok (path0 ++ prefixes pl cs, mkOst rest evs nz).
+Proof. exact descend_loop_ok. Qed.
+(* C08 transported to the regenerated loop (C08_analyze_good, root_visits_fresh / _reused, position_untouched) *)
+Theorem C08_source_analyze_tree_good :
+  forall F f_sqrt f_mul f_div_int (solve : list Q -> list Q -> F -> res (list Q)) (C : F) cutoff mix alpha limit,
+  (forall pi q lam, exists r, solve pi q lam = Ok r) -> (0 < cutoff)%Q ->
+  forall noise, is_some alpha = is_some noise ->
+  forall css t evs rest fuel,
+  Good cutoff t -> valid_analyze cutoff mix limit css t noise evs -> (0 < limit)%nat -> noise_ok noise t evs ->
+  (length css < fuel)%nat -> Forall (fun cs => (length cs < fuel)%nat) css ->
+  exists t' st',
+    MctsGen.analyze_tree ostate o_multinomial o_monotonic o_evaluate o_dirichlet F f_sqrt f_mul f_div_int solve C fuel
+      (search_cfg cutoff mix alpha limit) (py_of t) [] (mkOst (flat css ++ rest) evs noise) = Ok (py_of t', st') /\
+    Good cutoff t' /\ n_sims t' = Nat.max limit (n_sims t) /\ n_pos t' = n_pos t /\
+    pn_simulations (py_of t') = Z.of_nat (Nat.max limit (n_sims t)) /\ pn_position (py_of t') = n_pos t.
+Proof. exact gen_analyze_tree_good. Qed.
+(* analyze(p): a new tree on p *)
+Theorem C08_source_analyze_eq :
+  forall F f_sqrt f_mul f_div_int (solve : list Q -> list Q -> F -> res (list Q)) (C : F) cutoff mix alpha limit,
+  (forall pi q lam, exists r, solve pi q lam = Ok r) -> (0 < cutoff)%Q ->
+  forall noise, is_some alpha = is_some noise ->
+  forall css p evs rest fuel,
+  valid_analyze cutoff mix limit css (root p) noise evs -> (0 < limit)%nat -> noise_ok noise (root p) evs ->
+  (length css < fuel)%nat -> Forall (fun cs => (length cs < fuel)%nat) css ->
+  MctsGen.analyze ostate o_multinomial o_monotonic o_evaluate o_dirichlet F f_sqrt f_mul f_div_int solve C fuel
+    (search_cfg cutoff mix alpha limit) p (mkOst (flat css ++ rest) evs noise) =
+  Ok (py_of (fst (analyze cutoff mix limit css (root p) noise evs)),
+      mkOst (flat (unused cutoff mix limit noise css (root p) evs) ++ rest)
+            (snd (analyze cutoff mix limit css (root p) noise evs)) noise).
+Proof. exact gen_analyze_eq. Qed.
